@@ -8,7 +8,7 @@ THEOREMS = {
         "Dawgs.C04.Props.decode_encode", "Dawgs.C04.Props.decode_correct", "Dawgs.C04.Props.decode_total_or_error",
         "Dawgs.C04.Props.literal_pipeline", "Dawgs.C04.Props.builder_pipeline", "Dawgs.C04.Props.like_escape_literal",
         "Dawgs.C04.Props.key_unescape_escape", "Dawgs.C04.Props.jsonb_key_quoting", "Dawgs.C04.Props.nested_sql_param_bound",
-        "Dawgs.C04.Props.interval_literal",
+        "Dawgs.C04.Props.interval_literal", "Dawgs.C04.Props.comment_header_all_lines_commented", "Dawgs.C04.Props.comment_header_invisible",
         "Dawgs.C04.Props.identifier_quoted", "Dawgs.C04.Props.identifier_bare", "Dawgs.C04.Props.identifier_partial",
         "Dawgs.C04.Props.identifier_fixed", "Dawgs.C04.Props.identifier_case_folded", "Dawgs.C04.Props.identifier_quote_all",
         "Dawgs.C04.Props.identifier_verbatim_unsafe_old",
@@ -22,7 +22,7 @@ THEOREMS = {
         "Dawgs.C04.Sites.const_rows_are_const", "Dawgs.C04.Sites.known_findings_are_rows", "Dawgs.C04.Sites.like_guards",
         "Dawgs.C04.Sites.sites_table_nonempty", "Dawgs.C04.Sites.unguarded_rows_named", "Dawgs.C04.Sites.outside_rows_no_finding", "Dawgs.C04.Sites.guard_calls_in_place",
         "Dawgs.C04.Sites.guard_ascii_table", "Dawgs.C04.Sites.guard_shape", "Dawgs.C04.Sites.builder_accepts_bare",
-        "Dawgs.C04.Sites.builder_name_one_token",
+        "Dawgs.C04.Sites.builder_name_one_token", "Dawgs.C04.Sites.entry_options_exercised", "Dawgs.C04.Sites.exercised_options_exist",
     ],
 }
 
@@ -127,12 +127,14 @@ SPEC = {
             "strings (fixed list of quotes, backslashes, comment openers, dollar quotes, @name, semicolons, NUL-free control characters, non-BMP runes, "
             "64 KiB strings, trailing backslash/quote, one name per ASCII non-identifier character and per Unicode symbol/punctuation/mark/number category; plus random fragment concatenations from splitmix64(VERIF_SEED)) x Cypher encodings (single-quoted, "
             "double-quoted, escape sequences, bare, back-ticked); each case translates the hostile query and a benign twin with the real code and the Lean "
-            "lexer compares the two SQL texts; a second family feeds the same texts to every name- and value-taking function of the query builders (query/v2 As, NewScope, "
+            "lexer compares the two SQL texts; every case runs under both values of every boolean option of the entry points (FromCypher / Cypher emitter stripLiterals, "
+            "OutputBuilder MaterializeParameters and StripLiterals) and the FromCypher text must be the modelled comment header followed by the statement; a second family feeds the same texts to every name- and value-taking function of the query builders (query/v2 As, NewScope, "
             "Variable, NamedParameter, kinds, property names, SetProperties/RemoveProperties, values; query Variable, NodeProperty, values) and of the pg driver's "
             "statement builders without passing the Cypher lexer: the builder refuses the text or the emitted SQL is judged the same way (the identity property names of the "
             "driver's upsert batches are outside the quantifier: run for information only, see observations.outside_quantifier); non-trivial = both twins were translated; distinct = distinct op lines. suite c04q: every generated string "
             "through the real formatValue / formatIdentifier / NewStringLiteral / decodeCypherStringLiteral / UnescapePropertyKeyName vs the Lean functions, exact equality",
-    "expected_branches": ["translated.lit", "translated.key", "translated.ident", "translated.kindname", "translated.param", "translated.paramlist",
+    "expected_branches": ["opt.FromCypher.stripLiterals.true", "opt.FromCypher.stripLiterals.false", "opt.OutputBuilder.StripLiterals.true",
+                          "opt.OutputBuilder.MaterializeParameters.true","translated.lit", "translated.key", "translated.ident", "translated.kindname", "translated.param", "translated.paramlist",
                           "rejected.ident", "decode.ok", "decode.err:decode-invalid-escape", "decode.err:decode-dangling", "decode.err:decode-bad-literal"],
     "trusted_base": [
         "the Lean lexer is written from PostgreSQL's scan.l. Modelled: '…' with '' and continuation across a newline, E'…' (backslash escapes), B'…'/X'…'/N'…', "
